@@ -20,7 +20,7 @@ STUBS = "hand-written stand-ins for GAT syntax types (vx/prelude/syntax_stub.rs)
 
 BOOK_UNITS_C01 = ["check_balance", "ComputedPosting::calculate_balance_amount", "Exchange::is_zero", "Exchange::exchange", "Exchange::try_from_syntax",
                   "posting_price_event", "add_transaction", "PriceRepositoryBuilder::insert_price", "callsite:insert_impl division",
-                  "ComputedPosting::compute_from_syntax(body)", "posting_cost_exchange", "posting_lot_exchange", "ComputedPosting::calculate_converted_amount"]
+                  "ComputedPosting::compute_from_syntax(body)", "posting_cost_exchange", "posting_lot_exchange", "ComputedPosting::calculate_converted_amount", "ProcessAccumulator::process"]
 
 PROPS = {
     "C01": {
@@ -28,7 +28,7 @@ PROPS = {
         "verus": [("bookkeep", BOOK_UNITS_C01), ("amounts", ["SingleAmount::with_sign_of", "Mul<Decimal> for SingleAmount", "AddAssign<PostingAmount> for Amount", "AddAssign<SingleAmount> for Amount", "TryFrom<PostingAmount> for SingleAmount",
                                                                  "Amount::round_mut", "Amount::round", "Amount::is_zero", "Amount::maybe_pair", "Amount::negate", "SubAssign for Amount", "AddAssign<Amount> for Amount"])],
         "family": ("c01", {"quick": ["quick"], "thorough": ["thorough"]}),
-        "explanation": "Verus proves on the text of /repo: check_balance returns Ok only if the rounded per-commodity totals are all zero or exactly two non-zero totals of opposite sign remain, "
+        "explanation": "Verus proves on the text of /repo: a `commodity` directive stores the precision of its (last) `format` line for the declared commodity whatever the sample spells after the number (ProcessAccumulator::process); check_balance returns Ok only if the rounded per-commodity totals are all zero or exactly two non-zero totals of opposite sign remain, "
                        "always accepts an all-zero total, and otherwise returns UnbalancedPostings without dividing by zero; each posting is valued at lot price, else cost, else its own amount; "
                        "exchanges with zero rate / no commodity / same commodity are rejected; add_transaction's running total is the sum of those balancing values, a single omitted amount "
                        "receives its negation, two omitted amounts are an error, and otherwise check_balance decides (any number of postings and commodities, any prior balance).",
@@ -193,9 +193,11 @@ PROPS = {
     },
     "C08": {
         "level": "proof",
-        "verus": [("evalvisit", None), ("evaluated", None), ("amounts", None)],
+        "verus": [("evalvisit", None), ("evaluated", None), ("amounts", None),
+                  # the positions in which a single amount is required: cost / lot price (Exchange::try_from_syntax), posting amount (compute_from_syntax), assertion / assignment (process_posting)
+                  ("bookkeep", ["Exchange::try_from_syntax", "ComputedPosting::compute_from_syntax(body)", "process_posting"])],
         "family": ("c08", {"quick": ["quick"], "thorough": ["thorough"]}),
-        "explanation": "Verus proves, by structural induction over expression trees of every depth, that Evaluable::eval_visit (ValueExpr / Expr / UnaryOpExpr / BinaryOpExpr) returns, whenever it succeeds, "
+        "explanation": "(positions: the units that convert an evaluated expression where a single amount is required - Exchange::try_from_syntax for cost / lot price, compute_from_syntax for the posting amount, process_posting for assertions and assignments - are part of this check) Verus proves, by structural induction over expression trees of every depth, that Evaluable::eval_visit (ValueExpr / Expr / UnaryOpExpr / BinaryOpExpr) returns, whenever it succeeds, "
                        "exactly the value of a functional semantics `sem` (unary minus negates, parentheses group, each binary node applies its operator to both evaluated sides) and therefore fails on every tree "
                        "that has no value.  Verus also proves the typing rules of evaluation on the real functions: number+number and amount+amount (pointwise, per commodity) are the only sums, amount*number / number*amount the only "
                        "products with an amount, division by zero (number or all-zero amount) is DivideByZero, number/amount needs a single-commodity amount, amount/amount and number+amount are UnmatchingOperation; "
@@ -289,12 +291,12 @@ PROPS = {
     },
     "C12": {
         "level": "proof",
-        "verus": [("intern", None), ("evaluated", ["Evaluated::from_expr_amount_mut", "Evaluated::from_expr_amount"]), ("bookkeep", ["ProcessAccumulator::process"])],
+        "verus": [("intern", None), ("evaluated", ["Evaluated::from_expr_amount_mut", "Evaluated::from_expr_amount"]), ("bookkeep", ["ProcessAccumulator::process", "add_transaction"])],
         "family": ("c12", {"quick": [], "thorough": []}),
         "explanation": "Verus proves the alias table on the real InternStore code (HashMap<&str, Option<InternedStr>>): a representation invariant (aliases point at registered canonicals, no chains) is "
                        "preserved by every operation; resolve/ensure map an alias to the canonical it was declared for and a canonical to itself, never re-point or remove a known name (so a later use of an alias "
                        "means the canonical in every later state); insert_canonical on an alias is AlreadyAlias and insert_alias on a canonical is AlreadyCanonical with the table unchanged; every commodity name "
-                       "in an evaluated literal goes through ensure/resolve; ProcessAccumulator::process rejects an `account`/`commodity` declaration whose name is already an alias and registers every accepted "
+                       "in an evaluated literal goes through ensure/resolve; add_transaction books every posting on the account its written name resolves to (new postcondition: stored posting account == resolved(written name), for every spelling); ProcessAccumulator::process rejects an `account`/`commodity` declaration whose name is already an alias and registers every accepted "
                        "declaration without changing the meaning of names known before (against the store interface of ctx_stub.rs).  The FromInterned impls of Commodity and Account are verified against the trait contract.",
         "units_doc": ["core/src/report/intern.rs: InternStore::{get,resolve,ensure,insert_canonical,insert_alias,insert_canonical_impl,insert_alias_impl,as_type}, StoredValue::as_canonical, InternedStr::as_str",
                       "core/src/report/commodity.rs, context.rs: impl FromInterned for Commodity / Account", "core/src/report/eval/evaluated.rs: from_expr_amount(_mut)",
